@@ -404,6 +404,8 @@ fn array_part(ctx: &mut Ctx) {
     };
     gaussian_case(ctx, side);
   }
+  // a round resolution a user types: 128² = 2·8192 points (block-size multiples)
+  gaussian_case(ctx, 128);
 }
 
 /// square grid with identical axes; `g` is the exchanged-argument counterpart of `f`
